@@ -1,3 +1,4 @@
+import Props.Reach
 import Proofs.EConnect
 import Proofs.SpecParse
 import Proofs.Tie.Encode
@@ -75,6 +76,13 @@ theorem C02_emits_valid (p : Packet) (h : p.InDomain) (bs : Bytes) (he : p.encod
   | auth q =>
     simp only [Packet.encode, Packet.Enc.bytes.injEq] at he; subst he
     obtain ⟨h1, h2, h3⟩ := E_auth q h; exact ⟨_, rfl, h1, h2, rfl, h3⟩
+
+/-- **C02 as the property words it**: such a packet, when it is valid MQTT, is written as exactly
+the `unparse` of a legal abstract packet with the same reading -/
+theorem C02_api (k : Nat) (ops : List SetOp) (p : Packet) (h : (Packet.new k).applyAll ops = some p)
+    (hok : ∀ op ∈ ops, op.OK) (hf : p.Final) (hv : p.FinalValid) (bs : Bytes) (he : p.encode = .bytes bs) :
+    ∃ sp : SPacket, p.abs = some sp ∧ sp.Legal ∧ sp.unparse = bs ∧ sp.kind = p.kind ∧ sp.view = p.view :=
+  C02_emits_valid p (Packet.api_inDomain k ops p h hok hf hv) bs he
 
 theorem abs_canonical (p : Packet) (h : p.InDomain) (sp : SPacket) (ha : p.abs = some sp) : sp.Canonical := by
   cases p <;> simp only [Packet.abs, Option.some.injEq, reduceCtorEq] at ha <;> subst ha <;>
